@@ -15,7 +15,8 @@ R34c  handler accounting.  (i) every ``except SQLFluffSkipFile`` handler and
       every ``isinstance(.., SQLFluffSkipFile)`` arm in the tree (minus the
       reviewed NOT_LINT_PATH table) either increments — unconditionally, at
       the top level of its body — a counter attribute that ``lint_paths``
-      copies to ``LintingResult.files_skipped``, or re-raises.  (ii) no skip
+      copies to ``LintingResult.files_skipped``, or re-raises, or ends the run
+      itself with ``sys.exit(<failing status>)``.  (ii) no skip
       can escape the drivers ``Linter.lint_paths`` / ``lint_string_wrapped`` /
       ``parse_path`` (may-raise fixpoint over
       src/sqlfluff/core/linter with the loader's raise and the templater entry
@@ -324,6 +325,16 @@ def _is_increment(s: ast.stmt, counters: Set[str]) -> bool:
     return False
 
 
+def _exits_failing(s: ast.stmt) -> bool:
+    """``sys.exit(<failing status>)``: a non-zero int or one of the CLI's EXIT_* names other than EXIT_SUCCESS."""
+    if not (isinstance(s, ast.Expr) and isinstance(s.value, ast.Call) and fq(s.value) == "sys.exit" and len(s.value.args) == 1):
+        return False
+    a = s.value.args[0]
+    if isinstance(a, ast.Constant):
+        return isinstance(a.value, int) and not isinstance(a.value, bool) and a.value != 0
+    return isinstance(a, ast.Name) and a.id.startswith("EXIT_") and a.id != "EXIT_SUCCESS"
+
+
 def _reraises(h_name: Optional[str]):
     def pred(s):
         return isinstance(s, ast.Raise) and (s.exc is None or (isinstance(s.exc, ast.Name) and s.exc.id == h_name) or (isinstance(s.exc, ast.Call) and _is_skip(s.exc.func)))
@@ -378,6 +389,10 @@ def _r34c(chk, repo, sites: List[Site], bases: Set[str]) -> None:
         n_i += 1
         hname = s.node.name if s.kind == "handler" else None
         ok = counts(s.body) or _top_level_effect(s.body, _reraises(hname)) is not None
+        if not ok and _top_level_effect(s.body, _exits_failing) is not None:
+            # third accepted idiom (single-file commands such as `render`): the handler ends the
+            # run itself with a failing exit status -- the skip is visible and nothing goes on
+            ok = True
         if s.kind == "arm" and not ok and isinstance(s.subject, ast.Name):
             # `raise <subject>` in an arm
             ok = _top_level_effect(s.body, lambda st: isinstance(st, ast.Raise) and isinstance(st.exc, ast.Name) and st.exc.id == s.subject.id) is not None
@@ -694,18 +709,70 @@ def _r34d(chk, repo) -> None:
             exits = [c for c in calls_in(f) if fq(c) == "sys.exit"]
             chk.count("R34d.exit_sites", len(exits))
             flags = _flag_params(f, "--nofail")
-            # the skip test(s)
-            tests = []
-            for n in walk_local(f):
-                if isinstance(n, ast.If):
-                    ats = atoms(n.test, True)
-                    a_skip = [e for e, pol in ats if pol and isinstance(e, ast.Attribute) and e.attr == "files_skipped"]
-                    a_cfg = [e for e, pol in ats if pol and isinstance(e, ast.Call) and last_attr(e) == "get" and e.args and const(e.args[0]) == "large_file_skip_fail"]
-                    if a_skip and a_cfg:
-                        res_ok = any(isinstance(o.expr, ast.Call) and o.expr in lcalls for e in a_skip if isinstance(e.value, ast.Name) for o in origins(cfg, e.value, n))
-                        if res_ok:
-                            tests.append(n)
-            chk.count("R34d.skip_tests", len(tests))
+            # Statements that raise the exit code for skipped files: an assignment of a failing
+            # value (constant, or max(.., failing)) whose guards -- beyond those it shares with
+            # the exit itself -- are exactly positive tests of `<lint_paths result>.files_skipped`
+            # and `<config>.get("large_file_skip_fail")`, spelled in one `if`, nested `if`s or
+            # through a local holding the conjunction.
+            def expand(e, pol, at, depth=0):
+                if isinstance(e, ast.UnaryOp) and isinstance(e.op, ast.Not):
+                    return expand(e.operand, not pol, at, depth)
+                if isinstance(e, ast.Call) and call_name(e) == "bool" and len(e.args) == 1:
+                    return expand(e.args[0], pol, at, depth)
+                if isinstance(e, ast.BoolOp) and ((isinstance(e.op, ast.And) and pol) or (isinstance(e.op, ast.Or) and not pol)):
+                    return [a for v in e.values for a in expand(v, pol, at, depth)]
+                if isinstance(e, ast.Name) and depth < 4:
+                    os_ = origins(cfg, e, at)
+                    if len(os_) == 1 and os_[0].kind == "expr" and not os_[0].path and not isinstance(os_[0].expr, ast.Name):
+                        sub = expand(os_[0].expr, pol, os_[0].stmt, depth + 1)
+                        if len(sub) > 1 or (sub and sub[0][0] is not os_[0].expr):
+                            return sub
+                return [(e, pol)]
+
+            def is_skip_atom(e, at) -> bool:
+                return (
+                    isinstance(e, ast.Attribute) and e.attr == "files_skipped" and isinstance(e.value, ast.Name)
+                    and any(isinstance(o.expr, ast.Call) and o.expr in lcalls for o in origins(cfg, e.value, at))
+                )
+
+            def is_cfg_atom(e) -> bool:
+                return isinstance(e, ast.Call) and last_attr(e) == "get" and bool(e.args) and const(e.args[0]) == "large_file_skip_fail"
+
+            def failing(v) -> bool:
+                if code(v) not in (None, 0):
+                    return True
+                return isinstance(v, ast.Call) and call_name(v) == "max" and any(code(a) not in (None, 0) for a in v.args)
+
+            def raisers(xs, var: str):
+                """[(assignment, outermost guard Branch of the skip test)]"""
+                shared = {(norm(e), pol) for e, pol in cfg.conditions(xs)}
+                out = []
+                for n in walk_local(f):
+                    if not (isinstance(n, ast.Assign) and any(isinstance(t, ast.Name) and t.id == var for t in n.targets) and failing(n.value)):
+                        continue
+                    own = [g for g in cfg.guards(n) if isinstance(g.stmt, (ast.If, ast.While))]
+                    skip = cfgatom = False
+                    other = False
+                    first = None
+                    for g in own:
+                        for e0, p0 in atoms(g.stmt.test, g.polarity):
+                            if (norm(e0), p0) in shared:
+                                continue
+                            for e, pol in expand(e0, p0, g.stmt):
+                                if pol and is_skip_atom(e, g.stmt):
+                                    skip = True
+                                elif pol and is_cfg_atom(e):
+                                    cfgatom = True
+                                else:
+                                    other = True
+                                    continue
+                                if first is None:
+                                    first = g.stmt
+                    if skip and cfgatom and not other and first is not None:
+                        out.append((n, first))
+                return out
+
+            n_tests = 0
             for lc in lcalls:
                 ls = cfg.stmt_of(lc)
                 for x in exits:
@@ -721,27 +788,23 @@ def _r34d(chk, repo) -> None:
                     if any(pol and isinstance(e, ast.Name) and param_of(cfg, e, xs) in flags for e, pol in cfg.conditions(xs)):
                         chk.ok("R34d", qual(f), label + " under --nofail")
                         continue
-                    passed = bool(tests) and not cfg.paths_avoiding(ls, xs, lambda n: n in tests)
-                    raised = False
-                    if passed and isinstance(arg, ast.Name):
-                        for t in tests:
-                            for s in t.body:
-                                if isinstance(s, ast.Assign) and any(isinstance(tt, ast.Name) and tt.id == arg.id for tt in s.targets):
-                                    v = s.value
-                                    if code(v) not in (None, 0):
-                                        raised = True
-                                    if isinstance(v, ast.Call) and call_name(v) == "max" and any(code(a) not in (None, 0) for a in v.args):
-                                        raised = True
-                            # and that assignment reaches the exit
-                        raised = raised and any(
-                            isinstance(o.stmt, ast.Assign) and any(in_block(o.stmt, t.body) for t in tests) for o in origins(cfg, arg, xs)
-                        )
+                    good = False
+                    if isinstance(arg, ast.Name):
+                        rs = raisers(xs, arg.id)
+                        n_tests += len(rs)
+                        tests = [t for _, t in rs]
+                        # the skip test is consulted on every path from the lint call to the exit ...
+                        passed = bool(tests) and not cfg.paths_avoiding(ls, xs, lambda n: n in tests)
+                        # ... and the raised value is what the exit reads
+                        raised = any(o.stmt is a for a, _ in rs for o in origins(cfg, arg, xs))
+                        good = passed and raised
                     chk.require(
-                        passed and raised, "R34d", x,
+                        good, "R34d", x,
                         f"{f.name}: this exit is reachable after lint_paths without `files_skipped and large_file_skip_fail` raising the exit code: "
                         "a run that skipped files exits as if it had checked them",
                         detail=label + " consults files_skipped and large_file_skip_fail",
                     )
+            chk.count("R34d.skip_tests", n_tests)
     chk.count("R34d.commands_calling_lint_paths", n_cmd)
     chk.floor("R34d.commands_calling_lint_paths", 2)
     chk.floor("R34d.exit_sites", 3)
@@ -819,6 +882,25 @@ SQLMESH = "plugins/sqlfluff-templater-sqlmesh/sqlfluff_templater_sqlmesh/templat
 CMD = "src/sqlfluff/cli/commands.py"
 
 VARIANTS = [
+    Variant(
+        "render-skip-handler-exits-success", CMD,
+        "                click.echo(formatter.colorize(str(skip_file_err), Color.red), err=True)\n                sys.exit(EXIT_FAIL)\n",
+        "                click.echo(formatter.colorize(str(skip_file_err), Color.red), err=True)\n                sys.exit(EXIT_SUCCESS)\n",
+        "R34c", "render", "a skip that ends the run with status 0 is invisible",
+    ),
+    # behaviour-preserving refactors: must stay quiet
+    Variant(
+        "quiet-lint-skip-fail-through-local", CMD,
+        "        if result.files_skipped and config.get(\"large_file_skip_fail\"):\n            exit_code = max(exit_code, EXIT_FAIL)\n        sys.exit(exit_code)\n",
+        "        skip_fails = bool(result.files_skipped) and config.get(\"large_file_skip_fail\")\n        if skip_fails:\n            exit_code = max(exit_code, EXIT_FAIL)\n        sys.exit(exit_code)\n",
+        "QUIET", None, "skip-fail condition computed into a local",
+    ),
+    Variant(
+        "quiet-paths-fix-skip-fail-nested-if", CMD,
+        "    if result.files_skipped and linter.config.get(\"large_file_skip_fail\"):\n        exit_code = max(exit_code, EXIT_FAIL)\n\n    sys.exit(exit_code)\n",
+        "    if result.files_skipped:\n        if linter.config.get(\"large_file_skip_fail\"):\n            exit_code = max(exit_code, EXIT_FAIL)\n\n    sys.exit(exit_code)\n",
+        "QUIET", None, "conjunction spelled as nested ifs",
+    ),
     Variant("placeholder-process-undecorated", PLACEHOLDER, "    @large_file_check\n    def process(", "    def process(", "R34a", "PlaceholderTemplater.process"),
     Variant("jinja-variants-undecorated", JINJA, "    @large_file_check\n    def process_with_variants(", "    def process_with_variants(", "R34a", "JinjaTemplater.process_with_variants"),
     Variant("dbt-check-inside-error-wrapper", DBT,
